@@ -1144,7 +1144,8 @@ impl Walrus {
             let mut target = PersistTarget::None;
 
             let mut update_state = |info: &mut ColReaderInfo| {
-                if checkpoint {
+                // Offset-addressed (stateless) reads never move the shared cursor.
+                if checkpoint && start_offset.is_none() {
                     let mut should_persist_disk = true;
 
                     if let ReadConsistency::AtLeastOnce { persist_every } = self.read_consistency {
